@@ -11,11 +11,25 @@ def zeroD (l : List Stmt) : Bool := l.all (fun st => dH st == 0 && dC st == 0 &&
 /-- the class of handler programs for which the ledger is exact: NewStream takes nothing before the breaker test and each
 counter exactly once after it, creating the stream once; OnDestroyStream gives each counter back exactly once; the reset
 handler, the close handler and the go-away handler move nothing. -/
-def ledgerOk (pg : Progs) : Bool :=
+def noListen (l : List Stmt) : Bool := !l.contains .listen
+
+/-- where the stream can be reset from the moment it is created: the statement that makes the pool listen is followed by
+exactly one closed-connection test (and no second listener registration) -/
+def listenOk : List Stmt → Bool
+  | [] => true
+  | .listen :: r => r.count .undoChk == 1 && noListen r
+  | _ :: r => listenOk r
+
+def lisOk (pg : Progs) : Bool :=
+  noListen pg.reset && (noListen pg.destroy && (noListen pg.close && (noListen pg.goAway && (!pg.placeVisible || listenOk pg.nsPost))))
+
+def cntOk (pg : Progs) : Bool :=
   zeroD pg.nsPre &&
   (dsum dH pg.nsPost == 1 && dsum dC pg.nsPost == 1 && dsum dR pg.nsPost == 1 && dsum dP pg.nsPost == 1) &&
   (dsum dH pg.destroy == -1 && dsum dC pg.destroy == -1 && dsum dR pg.destroy == -1 && dsum dP pg.destroy == 0) &&
   zeroD pg.reset && zeroD pg.close && zeroD pg.goAway
+
+def ledgerOk (pg : Progs) : Bool := lisOk pg && cntOk pg
 
 /-- a column of the ledger: what a statement moves, what the ledger shows (both relative to the requests in flight) -/
 structure Col where
@@ -29,7 +43,9 @@ def colR : Col := { f := fun st => dR st - dP st, v := fun l => l.reqCur - l.ext
 def E (c : Col) (s : State) : Int := c.v s.led + pend c.f s.tasks
 
 structure ColOk (m : Nat) (pg : Progs) (c : Col) : Prop where
-  led : ∀ (l : Led) (o : Option Nat) (st : Stmt), l.maxReq = m → c.v (ledStmt l o st) = c.v l + c.f st
+  led : ∀ (vis : Bool) (l : Led) (o : Option Nat) (st : Stmt), l.maxReq = m → c.v (ledStmt vis l o st) = c.v l + c.f st
+  undo0 : c.f .undoChk = 0
+  lis : c.f .listen = -1
   drop : ∀ (l : Led) (k : Nat), c.v (l.drop k) = c.v l + (l.streams.count k : Nat)
   erase : ∀ (l : Led) (k : Nat), k ∈ l.streams → c.v { l with streams := l.streams.erase k } = c.v l + 1
   zero : ∀ l, zeroD l = true → dsum c.f l = 0
@@ -107,16 +123,27 @@ theorem resInc_eq (m : Nat) (x : Int) : resIncrease m x = if m = 0 then x else x
 theorem resDec_eq (m : Nat) (x : Int) : resDecrease m x = if m = 0 then x else x - 1 := by
   unfold resDecrease; split <;> simp_all <;> omega
 
+theorem ledgerOk_lis (pg : Progs) (h : ledgerOk pg = true) :
+    noListen pg.reset = true ∧ noListen pg.destroy = true ∧ noListen pg.close = true ∧ noListen pg.goAway = true ∧
+    (pg.placeVisible = true → listenOk pg.nsPost = true) := by
+  simp only [ledgerOk, lisOk, Bool.and_eq_true, Bool.or_eq_true, Bool.not_eq_true'] at h
+  obtain ⟨⟨h1, h2, h3, h4, h5⟩, _⟩ := h
+  refine ⟨h1, h2, h3, h4, ?_⟩
+  intro hv; rcases h5 with h5 | h5
+  · rw [hv] at h5; cases h5
+  · exact h5
+
 theorem ledgerOk_spec (pg : Progs) (h : ledgerOk pg = true) :
     zeroD pg.nsPre = true ∧ (dsum dH pg.nsPost = 1 ∧ dsum dC pg.nsPost = 1 ∧ dsum dR pg.nsPost = 1 ∧ dsum dP pg.nsPost = 1) ∧
     (dsum dH pg.destroy = -1 ∧ dsum dC pg.destroy = -1 ∧ dsum dR pg.destroy = -1 ∧ dsum dP pg.destroy = 0) ∧
     zeroD pg.reset = true ∧ zeroD pg.close = true ∧ zeroD pg.goAway = true := by
-  simpa [ledgerOk, and_assoc] using h
+  have h2 : cntOk pg = true := by simp only [ledgerOk, Bool.and_eq_true] at h; exact h.2
+  simpa [cntOk, and_assoc] using h2
 
 theorem colH_ok (m : Nat) (pg : Progs) (h : ledgerOk pg = true) : ColOk m pg colH := by
   have hp := ledgerOk_spec pg h
-  refine ⟨?_, ?_, ?_, ?_, ?_, ?_, ?_, ?_⟩
-  · intro l o st _; cases st <;> simp [colH, ledStmt, dH, dP] <;> omega
+  refine ⟨?_, rfl, rfl, ?_, ?_, ?_, ?_, ?_, ?_, ?_⟩
+  · intro vis l o st _; cases vis <;> cases st <;> simp [colH, ledStmt, dH, dP] <;> omega
   · intro l k; have := filter_count l.streams k; simp only [colH, Led.drop]; omega
   · intro l k hk; simp only [colH, List.length_erase_of_mem hk]
     have : 0 < l.streams.length := List.length_pos_of_mem hk
@@ -129,8 +156,8 @@ theorem colH_ok (m : Nat) (pg : Progs) (h : ledgerOk pg = true) : ColOk m pg col
 
 theorem colC_ok (m : Nat) (pg : Progs) (h : ledgerOk pg = true) : ColOk m pg colC := by
   have hp := ledgerOk_spec pg h
-  refine ⟨?_, ?_, ?_, ?_, ?_, ?_, ?_, ?_⟩
-  · intro l o st _; cases st <;> simp [colC, ledStmt, dC, dP] <;> omega
+  refine ⟨?_, rfl, rfl, ?_, ?_, ?_, ?_, ?_, ?_, ?_⟩
+  · intro vis l o st _; cases vis <;> cases st <;> simp [colC, ledStmt, dC, dP] <;> omega
   · intro l k; have := filter_count l.streams k; simp only [colC, Led.drop]; omega
   · intro l k hk; simp only [colC, List.length_erase_of_mem hk]
     have : 0 < l.streams.length := List.length_pos_of_mem hk
@@ -143,8 +170,8 @@ theorem colC_ok (m : Nat) (pg : Progs) (h : ledgerOk pg = true) : ColOk m pg col
 
 theorem colR_ok (m : Nat) (hm : m ≠ 0) (pg : Progs) (h : ledgerOk pg = true) : ColOk m pg colR := by
   have hp := ledgerOk_spec pg h
-  refine ⟨?_, ?_, ?_, ?_, ?_, ?_, ?_, ?_⟩
-  · intro l o st e; cases st <;> simp [colR, ledStmt, dR, dP, resInc_eq, resDec_eq, e, hm] <;> omega
+  refine ⟨?_, rfl, rfl, ?_, ?_, ?_, ?_, ?_, ?_, ?_⟩
+  · intro vis l o st e; cases vis <;> cases st <;> simp [colR, ledStmt, dR, dP, resInc_eq, resDec_eq, e, hm] <;> omega
   · intro l k; have := filter_count l.streams k; simp only [colR, Led.drop]; omega
   · intro l k hk; simp only [colR, List.length_erase_of_mem hk]
     have : 0 < l.streams.length := List.length_pos_of_mem hk
@@ -157,31 +184,117 @@ theorem colR_ok (m : Nat) (hm : m ≠ 0) (pg : Progs) (h : ledgerOk pg = true) :
 
 
 /-! ### steps -/
-/-- a NewStream that has not passed the breaker test owes nothing -/
-def PreInv (s : State) : Prop := ∀ t ∈ s.tasks, t.pre = true → zeroD t.rest = true
+/-! listener-shape lemmas -/
+theorem noListen_cons (a : Stmt) (l : List Stmt) : noListen (a :: l) = (a != .listen && noListen l) := by
+  cases a <;> simp [noListen, List.contains_cons]
+
+theorem noListen_append (a b : List Stmt) : noListen (a ++ b) = (noListen a && noListen b) := by
+  induction a with
+  | nil => simp [noListen]
+  | cons x a ih => simp only [List.cons_append, noListen_cons, ih, Bool.and_assoc]
+
+theorem noListen_replicate (n : Nat) (p : List Stmt) (h : noListen p = true) : noListen (List.replicate n p).flatten = true := by
+  induction n with
+  | zero => rfl
+  | succ n ih => simp only [List.replicate_succ, List.flatten_cons, noListen_append, h, ih, Bool.and_self]
+
+theorem listenOk_of_noListen (l : List Stmt) (h : noListen l = true) : listenOk l = true := by
+  induction l with
+  | nil => rfl
+  | cons a l ih =>
+    rw [noListen_cons] at h
+    simp only [Bool.and_eq_true, bne_iff_ne, ne_eq] at h
+    cases a <;> first | exact absurd rfl h.1 | exact ih h.2
+
+theorem listenOk_append (a b : List Stmt) (h : noListen a = true) : listenOk (a ++ b) = listenOk b := by
+  induction a with
+  | nil => rfl
+  | cons x a ih =>
+    rw [noListen_cons] at h
+    simp only [Bool.and_eq_true, bne_iff_ne, ne_eq] at h
+    cases x <;> first | exact absurd rfl h.1 | exact ih h.2
+
+theorem listenOk_tail (a : Stmt) (l : List Stmt) (h : listenOk (a :: l) = true) : listenOk l = true := by
+  cases a <;> try exact h
+  simp only [listenOk, Bool.and_eq_true] at h
+  exact listenOk_of_noListen l h.2
+
+theorem noListen_expand (pg : Progs) (l : List Stmt) (hd : noListen pg.destroy = true) (h : noListen l = true) :
+    noListen (expandUndo pg l) = true := by
+  induction l with
+  | nil => rfl
+  | cons a l ih =>
+    rw [noListen_cons] at h
+    simp only [Bool.and_eq_true] at h
+    simp only [expandUndo, List.flatMap_cons] at ih ⊢
+    rw [noListen_append, ih h.2]
+    split
+    · simp [hd]
+    · have h1 := h.1
+      simp only [bne_iff_ne, ne_eq] at h1
+      simp only [noListen, List.contains_cons, List.contains_nil, Bool.or_false, Bool.not_eq_true', beq_eq_false_iff_ne, ne_eq, Bool.and_true]
+      exact fun e => h1 e.symm
+
+theorem dsum_expand (f : Stmt → Int) (pg : Progs) (l : List Stmt) (h0 : f .undoChk = 0) :
+    dsum f (expandUndo pg l) = dsum f l + (l.count .undoChk : Nat) * dsum f pg.destroy := by
+  induction l with
+  | nil => simp [expandUndo, dsum]
+  | cons a l ih =>
+    simp only [expandUndo, List.flatMap_cons] at ih ⊢
+    rw [dsum_append, ih, dsum_cons, List.count_cons]
+    by_cases ha : a = .undoChk
+    · subst ha; simp only [if_true, h0, beq_self_eq_true]; push_cast; rw [Int.add_mul]; omega
+    · have : (a == Stmt.undoChk) = false := by simpa using ha
+      simp only [if_neg ha, this, dsum_cons, dsum_nil]; simp [Int.add_assoc]
+
+theorem lostProg_noListen (pg : Progs) (n : Nat) (hr : noListen pg.reset = true) (hd : noListen pg.destroy = true)
+    (hc : noListen pg.close = true) : noListen (lostProg pg n) = true := by
+  have : noListen (List.replicate n (pg.reset ++ pg.destroy)).flatten = true :=
+    noListen_replicate n _ (by rw [noListen_append, hr, hd]; rfl)
+  unfold lostProg
+  split <;> simp only [noListen_append, this, hc, Bool.and_self]
+
+theorem bookStmt_lost (pg : Progs) (led : Led) (b : Books) (t : Task) (st : Stmt)
+    (h : (bookStmt pg led b t st).2.2 = .lost) : st = .listen ∧ pg.placeVisible = true := by
+  cases st <;> simp only [bookStmt] at h <;> (try (repeat' split at h)) <;> simp_all
+
+theorem bookStmt_undo (pg : Progs) (led : Led) (b : Books) (t : Task) (st : Stmt) (c : Nat)
+    (h : (bookStmt pg led b t st).2.2 = .undo c) : st = .undoChk := by
+  cases st <;> simp only [bookStmt] at h <;> (try (repeat' split at h)) <;> simp_all
+
+/-- a NewStream that has not passed the breaker test owes nothing; where a created stream can be reset at once, a task
+that still has to make the pool listen has exactly one closed-connection test behind that statement -/
+def TOk (pg : Progs) (t : Task) : Prop :=
+  (t.pre = true → zeroD t.rest = true) ∧ (pg.placeVisible = true → listenOk t.rest = true)
+
+def PreInv (s : State) : Prop := ∀ t ∈ s.tasks, TOk s.pg t
 
 theorem mem_of_get {ts : List Task} {k : Nat} {t : Task} (h : ts[k]? = some t) : t ∈ ts := List.mem_of_getElem? h
 
 theorem newTask_E (c : Col) (s : State) (t : Task) : E c (newTask s t) = E c s + dsum c.f t.rest := by
   simp only [E, newTask, pend_append]; omega
 
-theorem newTask_pre (s : State) (t : Task) (h : PreInv s) (ht : t.pre = true → zeroD t.rest = true) : PreInv (newTask s t) := by
+theorem newTask_pre (s : State) (t : Task) (h : PreInv s) (ht : TOk s.pg t) : PreInv (newTask s t) := by
   intro t' ht'
   simp only [newTask, List.mem_append, List.mem_singleton] at ht'
   rcases ht' with h1 | rfl
   · exact h t' h1
   · exact ht
 
-theorem set_pre (s : State) (k : Nat) (t' : Task) (h : PreInv s) (ht : t'.pre = true → zeroD t'.rest = true) :
-    ∀ x ∈ s.tasks.set k t', x.pre = true → zeroD x.rest = true := by
+theorem set_pre (s : State) (k : Nat) (t' : Task) (h : PreInv s) (ht : TOk s.pg t') :
+    ∀ x ∈ s.tasks.set k t', TOk s.pg x := by
   intro x hx
   rcases List.mem_or_eq_of_mem_set hx with h1 | rfl
   · exact h x h1
   · exact ht
 
-theorem stepTask_E {m : Nat} (c : Col) (s : State) (ok : ColOk m s.pg c) (hr : dsum c.f s.pg.reset = 0)
+theorem ledStmt_maxReq (vis : Bool) (l : Led) (o : Option Nat) (st : Stmt) : (ledStmt vis l o st).maxReq = l.maxReq := by
+  cases vis <;> cases st <;> rfl
+
+theorem stepTask_E {m : Nat} (c : Col) (s : State) (ok : ColOk m s.pg c) (hok : ledgerOk s.pg = true) (hr : dsum c.f s.pg.reset = 0)
     (hc : dsum c.f s.pg.close = 0) (hm : s.led.maxReq = m) (hp : PreInv s) (k : Nat) :
     E c (stepTask s k) = E c s ∧ PreInv (stepTask s k) ∧ (stepTask s k).pg = s.pg ∧ (stepTask s k).led.maxReq = s.led.maxReq := by
+  obtain ⟨lr, ld, lc, _, lpost⟩ := ledgerOk_lis _ hok
   unfold stepTask
   split
   · exact ⟨rfl, hp, rfl, rfl⟩
@@ -191,66 +304,109 @@ theorem stepTask_E {m : Nat} (c : Col) (s : State) (ok : ColOk m s.pg c) (hr : d
     · rename_i st rest heq
       have hT : dsum c.f t.rest = c.f st + dsum c.f rest := by rw [heq, dsum_cons]
       have hmem := mem_of_get htk
+      have hL : s.pg.placeVisible = true → listenOk (st :: rest) = true := fun hv => by rw [← heq]; exact (hp t hmem).2 hv
+      have hLr : s.pg.placeVisible = true → listenOk rest = true := fun hv => listenOk_tail st rest (hL hv)
       split
       · exact ⟨rfl, hp, rfl, rfl⟩
       · rename_i hpre
-        have z := ok.zero _ (hp t hmem hpre)
-        refine ⟨?_, set_pre s k _ hp (by intro h; cases h), rfl, rfl⟩
+        have z := ok.zero _ ((hp t hmem).1 hpre)
+        refine ⟨?_, set_pre s k _ hp ⟨(by intro h; cases h), fun _ => rfl⟩, rfl, rfl⟩
         simp only [E]; rw [pend_set _ _ _ _ _ htk]; simp only [dsum_nil]; omega
       · rename_i hpre
-        have z := ok.zero _ (hp t hmem hpre)
-        refine ⟨?_, set_pre s k _ hp (by intro h; cases h), rfl, rfl⟩
+        have z := ok.zero _ ((hp t hmem).1 hpre)
+        refine ⟨?_, set_pre s k _ hp ⟨(by intro h; cases h), lpost⟩, rfl, rfl⟩
         simp only [E]; rw [pend_set _ _ _ _ _ htk]; have := ok.post; dsimp only at *; omega
       · rename_i b c' cc _ hpre
         split
-        · refine ⟨?_, set_pre s k _ hp (by intro h; simp [hpre] at h), rfl, ?_⟩
-          · simp only [E]; rw [pend_set _ _ _ _ _ htk, ok.drop, ok.led _ _ _ hm]
+        · refine ⟨?_, set_pre s k _ hp ⟨(by intro h; simp [hpre] at h), fun hv => ?_⟩, rfl, ?_⟩
+          · simp only [E]; rw [pend_set _ _ _ _ _ htk, ok.drop, ok.led _ _ _ _ hm]
             simp only [dsum_append, lostProg_dsum c s.pg _ hr ok.destroy hc]; omega
-          · cases st <;> rfl
-        · refine ⟨?_, set_pre s k _ hp (by intro h; simp [hpre] at h), rfl, ?_⟩
-          · simp only [E]; rw [pend_set _ _ _ _ _ htk, ok.led _ _ _ hm]; dsimp only at *; omega
-          · cases st <;> rfl
+          · show listenOk (lostProg s.pg _ ++ rest) = true
+            rw [listenOk_append _ _ (lostProg_noListen _ _ lr ld lc)]; exact hLr hv
+          · exact ledStmt_maxReq ..
+        · refine ⟨?_, set_pre s k _ hp ⟨(by intro h; simp [hpre] at h), hLr⟩, rfl, ?_⟩
+          · simp only [E]; rw [pend_set _ _ _ _ _ htk, ok.led _ _ _ _ hm]; dsimp only at *; omega
+          · exact ledStmt_maxReq ..
+      · rename_i b c' hb hpre
+        have hl := bookStmt_lost s.pg s.led s.bk t st (by rw [hb])
+        obtain ⟨rfl, hv⟩ := hl
+        have hlo := hL hv
+        simp only [listenOk, Bool.and_eq_true, beq_iff_eq] at hlo
+        refine ⟨?_, set_pre s k _ hp ⟨(by intro h; simp [hpre] at h), fun _ => ?_⟩, rfl, rfl⟩
+        · simp only [E]; rw [pend_set _ _ _ _ _ htk]
+          simp only [dsum_expand c.f s.pg rest ok.undo0, hlo.1, ok.destroy]
+          have := ok.lis; omega
+        · exact listenOk_of_noListen _ (noListen_expand _ _ ld hlo.2)
+      · rename_i b c' cc hb hpre
+        have hu := bookStmt_undo s.pg s.led s.bk t st cc (by rw [hb])
+        subst hu
+        split
+        · rename_i hin
+          refine ⟨?_, set_pre s k _ hp ⟨(by intro h; simp [hpre] at h), fun hv => ?_⟩, rfl, rfl⟩
+          · simp only [E]; rw [pend_set _ _ _ _ _ htk, ok.erase _ _ hin]
+            simp only [dsum_append, hr, ok.destroy]; have := ok.undo0; omega
+          · show listenOk (s.pg.reset ++ s.pg.destroy ++ rest) = true
+            rw [listenOk_append _ _ (by rw [noListen_append, lr, ld]; rfl)]; exact hLr hv
+        · refine ⟨?_, set_pre s k _ hp ⟨(by intro h; simp [hpre] at h), hLr⟩, rfl, rfl⟩
+          simp only [E]; rw [pend_set _ _ _ _ _ htk]; have := ok.undo0; dsimp only at *; omega
       · rename_i hpre
-        have z := ok.zero _ (hp t hmem hpre)
-        have z' : zeroD rest = true := zeroD_tail st rest (by rw [← heq]; exact hp t hmem hpre)
-        refine ⟨?_, set_pre s k _ hp (fun _ => z'), rfl, rfl⟩
+        have z := ok.zero _ ((hp t hmem).1 hpre)
+        have z' : zeroD rest = true := zeroD_tail st rest (by rw [← heq]; exact (hp t hmem).1 hpre)
+        refine ⟨?_, set_pre s k _ hp ⟨fun _ => z', hLr⟩, rfl, rfl⟩
         simp only [E]; rw [pend_set _ _ _ _ _ htk]; have := ok.zero _ z'; dsimp only at *; omega
       · rename_i hpre
-        refine ⟨?_, set_pre s k _ hp (by intro h; simp [hpre] at h), rfl, ?_⟩
-        · simp only [E]; rw [pend_set _ _ _ _ _ htk, ok.led _ _ _ hm]; dsimp only at *; omega
-        · cases st <;> rfl
+        refine ⟨?_, set_pre s k _ hp ⟨(by intro h; simp [hpre] at h), hLr⟩, rfl, ?_⟩
+        · simp only [E]; rw [pend_set _ _ _ _ _ htk, ok.led _ _ _ _ hm]; dsimp only at *; omega
+        · exact ledStmt_maxReq ..
 
 theorem step_E {m : Nat} (c : Col) (s : State) (ok : ColOk m s.pg c) (hok : ledgerOk s.pg = true)
     (hm : s.led.maxReq = m) (hp : PreInv s) (l : Label) :
     E c (step s l) = E c s ∧ PreInv (step s l) ∧ (step s l).pg = s.pg ∧ (step s l).led.maxReq = s.led.maxReq := by
   have sp := ledgerOk_spec _ hok
+  obtain ⟨lr, ld, lc, lg, _⟩ := ledgerOk_lis _ hok
   have hr := ok.zero _ sp.2.2.2.1
   have hc := ok.zero _ sp.2.2.2.2.1
   have hg := ok.zero _ sp.2.2.2.2.2
+  have nl : ∀ l, noListen l = true → s.pg.placeVisible = true → listenOk l = true := fun l h _ => listenOk_of_noListen l h
   cases l with
   | newStream slot d =>
-    refine ⟨?_, newTask_pre _ _ hp (fun _ => sp.1), rfl, rfl⟩
-    rw [step, newTask_E]; have := ok.zero _ sp.1; simp only; omega
+    refine ⟨?_, newTask_pre _ _ hp ⟨fun _ => sp.1, fun _ => ?_⟩, rfl, rfl⟩
+    · rw [step, newTask_E]; have := ok.zero _ sp.1; simp only; omega
+    · -- a program that moves nothing contains no listener registration
+      have hz := sp.1
+      show listenOk s.pg.nsPre = true
+      apply listenOk_of_noListen
+      generalize s.pg.nsPre = l at hz
+      induction l with
+      | nil => rfl
+      | cons a l ih =>
+        simp only [zeroD, List.all_cons, Bool.and_eq_true] at hz
+        rw [noListen_cons, ih (by simpa [zeroD] using hz.2)]
+        cases a <;> simp_all [dP]
   | connect slot d => exact ⟨rfl, hp, rfl, rfl⟩
   | endStream cc cause =>
     simp only [step]
     split
     · rename_i hin
-      refine ⟨?_, newTask_pre _ _ hp (by intro h; cases h), rfl, rfl⟩
-      rw [newTask_E]; simp only [E, dsum_append, ok.erase _ _ hin, ok.destroy]
-      split <;> simp only [dsum_nil, hr] <;> omega
+      refine ⟨?_, newTask_pre _ _ hp ⟨(by intro h; cases h), nl _ ?_⟩, rfl, rfl⟩
+      · rw [newTask_E]; simp only [E, dsum_append, ok.erase _ _ hin, ok.destroy]
+        split <;> simp only [dsum_nil, hr] <;> omega
+      · show noListen ((if cause = .complete then [] else s.pg.reset) ++ s.pg.destroy) = true
+        rw [noListen_append, ld]; split
+        · rfl
+        · rw [lr]; rfl
     · exact ⟨rfl, hp, rfl, rfl⟩
-  | taskStep k => exact stepTask_E c s ok hr hc hm hp k
+  | taskStep k => exact stepTask_E c s ok hok hr hc hm hp k
   | netClose cc =>
     simp only [step]
     split
-    · refine ⟨?_, newTask_pre _ _ hp (by intro h; cases h), rfl, rfl⟩
+    · refine ⟨?_, newTask_pre _ _ hp ⟨(by intro h; cases h), nl _ (lostProg_noListen _ _ lr ld lc)⟩, rfl, rfl⟩
       rw [newTask_E]; simp only [E, ok.drop, lostProg_dsum c s.pg _ hr ok.destroy hc]; omega
     · exact ⟨rfl, hp, rfl, rfl⟩
   | goAway cc =>
     simp only [step]
     split
-    · refine ⟨?_, newTask_pre _ _ hp (by intro h; cases h), rfl, rfl⟩
+    · refine ⟨?_, newTask_pre _ _ hp ⟨(by intro h; cases h), nl _ lg⟩, rfl, rfl⟩
       rw [newTask_E]; simp only [hg]; omega
     · exact ⟨rfl, hp, rfl, rfl⟩
   | extInc => exact ⟨by simp only [step, E, ok.extI _ hm], hp, rfl, rfl⟩
@@ -263,9 +419,9 @@ theorem step_E {m : Nat} (c : Col) (s : State) (ok : ColOk m s.pg c) (hok : ledg
 theorem res0_inc (x : Int) : resIncrease 0 x = x := by simp [resIncrease]
 theorem res0_dec (x : Int) : resDecrease 0 x = x := by simp [resDecrease]
 /-- unlimited breaker: `Requests().Cur()` never moves -/
-theorem ledStmt_req0 (l : Led) (o : Option Nat) (st : Stmt) (h : l.maxReq = 0) :
-    (ledStmt l o st).reqCur = l.reqCur := by
-  cases st <;> simp [ledStmt, h, res0_inc, res0_dec]
+theorem ledStmt_req0 (vis : Bool) (l : Led) (o : Option Nat) (st : Stmt) (h : l.maxReq = 0) :
+    (ledStmt vis l o st).reqCur = l.reqCur := by
+  cases vis <;> cases st <;> simp [ledStmt, h, res0_inc, res0_dec]
 
 theorem step_req0 (s : State) (h : s.led.maxReq = 0) (l : Label) : (step s l).led.reqCur = s.led.reqCur := by
   cases l with
@@ -277,9 +433,10 @@ theorem step_req0 (s : State) (h : s.led.maxReq = 0) (l : Label) : (step s l).le
       · rfl
       · split <;> try rfl
         · split
-          · exact ledStmt_req0 _ _ _ h
-          · exact ledStmt_req0 _ _ _ h
-        · exact ledStmt_req0 _ _ _ h
+          · exact ledStmt_req0 _ _ _ _ h
+          · exact ledStmt_req0 _ _ _ _ h
+        · split <;> rfl
+        · exact ledStmt_req0 _ _ _ _ h
   | endStream cc cause => simp only [step]; split <;> rfl
   | netClose cc => simp only [step]; split <;> rfl
   | goAway cc => simp only [step]; split <;> rfl
